@@ -103,6 +103,10 @@ def _optb(v):
 # A terminal history: GraphicsTerminal(num_tmux_layers=c["layers"], max_command_size=c["max"]) followed by c["term"]["steps"]:
 #   {"how": "clone", "args": {...clone_with keyword arguments...}}   a new object derived from the newest one
 #   {"how": "assign_max", "v": x} / {"how": "assign_layers", "v": k} / {"how": "detect", "tmux": .., "term": ..}   on the newest one
+#   {"how": "send", "cmd": <command description>, "on": i}   an EARLIER USE: the command is sent through object number i of those
+#       existing at that moment (default: the newest).  It configures nothing: what the caller configured afterwards (clone_with
+#       arguments, assignments, detection) is what the judged transmission is held against, however often and with whatever any
+#       of the objects was used before.  Only the bytes of the judged transmission are looked at.
 # The command is sent through object number c["term"]["send_on"] (default: the newest; 0 = the constructed one).
 def intended_cfg(d, c):
     """(layers, limit) the CALLER configured on the object the command is sent through.  Not read back from the object:
@@ -124,6 +128,8 @@ def intended_cfg(d, c):
             cur[0] = st["v"]
         elif how == "detect":
             cur[0] = max(1, cur[0]) if d.ask(f"spec_detect {_optb(st['tmux'])} {_optb(st['term'])}") == "1" else 0
+        elif how == "send":
+            pass                                 # using a terminal configures nothing
         else:
             raise ValueError(how)
     return tuple(objs[term.get("send_on", -1)])
@@ -172,9 +178,20 @@ def real_terminal(c, out):
         elif how == "detect":
             with env_ctx(st["tmux"], st["term"]):
                 cur.detect_tmux()
+        elif how == "send":
+            try:
+                objs[st.get("on", -1)].send_command(build(st["cmd"]))
+            except ValueError:                   # a limit too small for this command: nothing is sent, the object was used all the same
+                real_terminal.rejected += 1
+            except Exception as e:               # not an outcome the model knows: reported as a broken correspondence by run_send
+                real_terminal.unexpected = "earlier use: " + repr(e)[:200]
         else:
             raise ValueError(how)
     return objs[term.get("send_on", -1)]
+
+
+real_terminal.rejected = 0
+real_terminal.unexpected = None
 
 
 def run_send(c: dict):
@@ -193,7 +210,13 @@ def run_send(c: dict):
     try:
         if c.get("via", "send") == "terminal":
             out = Rec()
+            real_terminal.unexpected = None
             term = real_terminal(c, out)
+            run_send.unexpected = real_terminal.unexpected
+            # earlier uses wrote to the same stream: only the judged transmission is kept
+            out.seek(0)
+            out.truncate()
+            out.writes.clear()
             run_send.cfg = (term.num_tmux_layers, term.max_command_size)
             try:
                 term.send_command(obj)
@@ -242,7 +265,12 @@ def check_case(ctx: Ctx, c: dict):
             if mcfg != f"{n} {mx}":      # the model of the code and the reading of the caller's configuration must not drift apart
                 ctx.mismatch("model terminal configuration vs configured values", c, mcfg, f"{n} {mx}")
             for st in (c.get("term") or {}).get("steps", []):
-                ctx.count("term-step:" + st["how"] + (":" + ",".join(sorted(k for k, v in st["args"].items() if v is not None)) if st["how"] == "clone" else ""))
+                ctx.count("term-step:" + st["how"] + (":" + ",".join(sorted(k for k, v in st["args"].items() if v is not None)) if st["how"] == "clone" else
+                                                       ":" + st["cmd"]["type"] if st["how"] == "send" else ""))
+            hist = [st["how"] for st in (c.get("term") or {}).get("steps", [])]
+            if "send" in hist:
+                later = hist[hist.index("send") + 1:]
+                ctx.count("term-second-use:" + ("then-" + "+".join(sorted(set(later) - {"send"})) if set(later) - {"send"} else "plain"))
             ctx.count("term-limit:" + ("default" if mxv is None else "<4096" if mxv < 4096 else "=4096" if mxv == 4096 else ">4096"))
         else:
             model = d.ask(f"send {n} {mx} {tok}")
@@ -421,6 +449,22 @@ def cases(ctx: Ctx):
             a["num_tmux_layers"] = layers if layers is not None else rng.choice([None, 0, 0, 1, 2, 3])
         return a
 
+    # earlier uses of a terminal object: a one-chunk and a several-chunk inline transmission, a name transmission, a put, a delete
+    EARLIER = [{"type": "T", "f": {"image_id": 3, "medium": "DIRECT", "format": "PNG"}, "data": {"len": 2, "pat": "x"}},
+               {"type": "T", "f": {"image_number": 9}, "data": {"len": 700, "pat": "rand", "seed": 5}},
+               {"type": "T", "f": {"image_id": 4, "medium": "SHARED_MEMORY"}, "data": {"text": "psm_1a2b3c4d"}},
+               {"type": "P", "f": {"image_id": 3, "placement_id": 1, "rows": 1, "cols": 2, "virtual": True}},
+               {"type": "D", "f": {"what": "IMAGE_OR_PLACEMENT_BY_ID", "image_id": 3, "delete_data": True}}]
+
+    def use(on=-1):
+        st = {"how": "send", "cmd": rng.choice(EARLIER)}
+        if on != -1:
+            st["on"] = on
+        return st
+
+    def other(n):
+        return rng.choice([k for k in range(0, 4) if k != n])
+
     def term_case(f, layers, mx, steps, send_on=-1):
         c = {"k": "send", "cmd": {"type": "T", "f": f, "data": None}, "layers": layers, "max": mx, "via": "terminal",
              "term": {"steps": steps, "send_on": send_on}, "stream": rng.choice(streams) if rng.random() < 0.2 else "bytes", "callback": True}
@@ -444,13 +488,33 @@ def cases(ctx: Ctx):
                 if quick and rng.random() < 0.35:
                     continue
                 yield term_case(f, n, mx, steps, on)
+            # SECOND USE: the object (or the one it is derived from, or one derived from it) has already sent something when it
+            # is reconfigured / cloned / used again; the judged transmission goes through the clone and through the original
+            second = [([use(), {"how": "clone", "args": {"num_tmux_layers": other(n)}}], -1),
+                      ([use(), {"how": "clone", "args": {"num_tmux_layers": other(n)}}], 0),
+                      ([use(), {"how": "clone", "args": clone_args(f, other(n))}, use()], rng.choice([0, -1])),
+                      ([{"how": "clone", "args": {"num_tmux_layers": other(n)}}, use(1)], 0),
+                      ([{"how": "clone", "args": clone_args(f, other(n))}, use(0)], -1),
+                      ([use(), {"how": "assign_layers", "v": other(n)}], -1),
+                      ([use(), {"how": "assign_max", "v": rng.choice(LIMITS)}], -1),
+                      ([use(), {"how": "detect", "tmux": rng.choice(ENVS)[0], "term": rng.choice(ENVS)[1]}], -1),
+                      ([use(), {"how": "clone", "args": clone_args(f)}, use(), {"how": "clone", "args": {"num_tmux_layers": rng.randrange(0, 4)}}],
+                       rng.choice([0, 1, -1])),
+                      ([use(), use(), {"how": "clone", "args": {}}, {"how": "assign_layers", "v": other(n)}, use(0)], rng.choice([0, -1]))]
+            for steps, on in second:
+                if quick and rng.random() < 0.35:
+                    continue
+                yield term_case(f, n, mx, steps, on)
     for _ in range(500 if quick else 20000):
         f = rng.choice(HEADERS)
         steps = []
-        for _j in range(rng.randrange(0, 4)):
-            how = rng.choice(["clone", "clone", "clone", "assign_max", "assign_layers", "detect"])
+        for _j in range(rng.randrange(0, 6)):
+            how = rng.choice(["clone", "clone", "clone", "assign_max", "assign_layers", "detect", "send", "send"])
             if how == "clone":
                 steps.append({"how": "clone", "args": clone_args(f)})
+            elif how == "send":
+                nobj = 1 + sum(1 for st in steps if st["how"] == "clone")
+                steps.append(use(rng.choice([-1, -1, rng.randrange(0, nobj)])))
             elif how == "assign_max":
                 steps.append({"how": "assign_max", "v": rng.choice(LIMITS)})
             elif how == "assign_layers":
@@ -505,7 +569,9 @@ def run(ctx: Ctx):
                 "callback and via GraphicsTerminal.send_command; terminal histories (constructed object, clone_with with every keyword "
                 "argument, clones of clones, limit / layer count assigned before and after cloning, detect_tmux, the original after "
                 "cloning) x limits {too small ... 4095, 4096, 4097 ... 9000, default} x 0..3 layers, judged against the limit and "
-                "layer count the caller configured; limits 4097 ... 70000 and budgets around 4096 base64 characters / 4096 raw bytes "
+                "layer count the caller configured; SECOND-USE histories: objects that have already sent something (one-chunk / "
+                "several-chunk / name transmission, put, delete) before they are cloned with another layer count or other options, "
+                "reconfigured by assignment or detect_tmux, or used again after a clone of them was used; limits 4097 ... 70000 and budgets around 4096 base64 characters / 4096 raw bytes "
                 "with payloads of 1..3 chunks and around 4096 / 8192 bytes. "
                 "distinct = canonical JSON; non-trivial = error outcome or >= 2 chunks")
     c06.run_corpus(ctx, "C05", check_case)
